@@ -5,7 +5,7 @@ import ast
 import re
 
 from ..core.absint import AV, Alt, App, Const, ListV, Obj, Outcome, Rep, State, StrT, Sym, walk_av
-from ..core.ctx import GEN, Ctx
+from ..core.ctx import API_MOD, GEN, Ctx
 from ..core.report import Collector
 from ..core.source import AnalysisError
 from .common import GENCLS, find_loops, fmt_facts, gen_state, mentions, new_effects, render, run_body, sym_is
@@ -78,26 +78,35 @@ def check(ctx: Ctx, col: Collector, tier: str) -> None:
 
     def run_class(supers: tuple[str, ...]) -> list[Outcome]:
         it = ctx.interp(cfi, inline={"is_internal"})
-        return [o for o in it.run_function(cfi, {"self": Sym("self"), "class_": class_obj(supers), "class_indentation": Const(""), "in_reexport_module": Const(True)}, gen_state())
+        # Class.is_abstract is the property `"abc.ABC" in self.superclasses`
+        cobj = class_obj(supers, is_abstract=Const("abc.ABC" in supers))
+        return [o for o in it.run_function(cfi, {"self": Sym("self"), "class_": cobj, "class_indentation": Const(""), "in_reexport_module": Const(True)}, gen_state())
                 if o.kind == "return"]
 
     def sub_clause(o: Outcome) -> str:
         txt = re.sub(r"\{_replace_if_safeds_keyword\('(\w+)'\)\}", r"\1", render(o.value))
-        m = re.search(r"\) sub ([\w, ]*\w)", txt)
+        m = re.search(r" sub ([\w, ]*\w)", txt)
         return m.group(1).strip() if m else ""
 
     # ------------------------------------------------------------------ BRANCH
     cases = [(("m.A",), "A", ["m.A"], []), (("m._P",), "", [], ["m._P"]), (("m.A", "n.B"), "A, B", ["m.A", "n.B"], []),
-             (("n.B", "m.A"), "B, A", ["n.B", "m.A"], []), (("m.A", "m._P", "n.B"), "A, B", ["m.A", "n.B"], ["m._P"])]
+             (("n.B", "m.A"), "B, A", ["n.B", "m.A"], []), (("m.A", "m._P", "n.B"), "A, B", ["m.A", "n.B"], ["m._P"]),
+             # abstract classes (abc.ABC among the bases; whether ABC itself is named is not judged)
+             (("abc.ABC", "m.A"), "A", ["m.A"], []), (("m._P", "abc.ABC"), "", [], ["m._P"]), (("abc.ABC", "m.A", "m._P", "n.B"), "A, B", ["m.A", "n.B"], ["m._P"])]
+    abc_prop = repo.cls(API_MOD, "Class")
+    abc_fn = next((n for n in abc_prop.node.body if isinstance(n, ast.FunctionDef) and n.name == "is_abstract"), None)
+    if abc_fn is None or "'abc.ABC' in self.superclasses" not in ast.unparse(abc_fn):
+        raise AnalysisError("Class.is_abstract is no longer `'abc.ABC' in self.superclasses`; re-triage the abstract-class cases of C17.BRANCH")
     for supers, want_sub, want_imports, want_inlined in cases:
         outs = run_class(supers)
         probs = []
         for o in outs:
             sub = sub_clause(o)
-            sub_norm = sub
+            sub_norm = ", ".join(x for x in sub.split(", ") if x and x != "ABC")
             if sub_norm != want_sub:
                 probs.append(f"sub clause {sub_norm!r}, reference {want_sub!r}")
             imps = [e.args[0].v for e in o.effects if e.kind == "call" and e.target == "self._add_to_imports" and e.args and isinstance(e.args[0], Const)]
+            imps = [x for x in imps if x != "abc.ABC"]
             if imps != want_imports:
                 probs.append(f"imports registered {imps}, reference {want_imports}")
             inl = [dict(e.kwargs).get("superclass", e.args[0] if e.args else None) for e in o.effects if e.kind == "call" and e.target == ICS]
